@@ -6,6 +6,7 @@ import (
 	"fmt"
 	"go/constant"
 	"go/token"
+	"go/types"
 	"sort"
 	"strings"
 
@@ -518,6 +519,10 @@ func ruleCLIModeTable(c *Ctx, rule string) {
 		if w, ok := want[in]; ok {
 			ob.Check(errNil && len(stored) == 1 && strings.HasSuffix(stored[0], "="+w), "selects "+w,
 				fmt.Sprintf("expected mode %s and no error; got error-nil=%t, stores %v", w, errNil, stored))
+		} else if in == "overwrite" {
+			// a spelling variant of a documented mode: rejecting it or reading it as that mode are both consistent with the property
+			ob.Check((!errNil && len(stored) == 0) || (errNil && len(stored) == 1 && strings.HasSuffix(stored[0], "=OVERWRITE")), "rejected, or read as OVERWRITE",
+				fmt.Sprintf("a lower-case spelling must be rejected or select the mode it spells; got error-nil=%t, stores %v", errNil, stored))
 		} else {
 			ob.Check(!errNil && len(stored) == 0, "rejected with an error, mode unchanged",
 				fmt.Sprintf("an unknown mode must be an error and leave the mode unchanged; got error-nil=%t, stores %v", errNil, stored))
@@ -643,4 +648,116 @@ func ruleCLIOpenForWriting(c *Ctx, rule string) {
 			ob.OKnt(fmt.Sprintf("flags %#x include a write access mode, permissions %#o", flags, perm&0o777))
 		}
 	}
+	// every document written to a file replaces what the file held: the file is opened with O_TRUNC or truncated before the write
+	const oTRUNC = 0x200
+	isFile := func(v ssa.Value) bool {
+		p, ok := v.Type().(*types.Pointer)
+		if !ok {
+			return false
+		}
+		n, ok := p.Elem().(*types.Named)
+		return ok && n.Obj().Name() == "File" && n.Obj().Pkg() != nil && n.Obj().Pkg().Path() == "os"
+	}
+	// openFlags: the flags of the os.OpenFile call a file value comes from (through one repository helper)
+	var openFlags func(v ssa.Value, depth int) (int64, bool)
+	openFlags = func(v ssa.Value, depth int) (int64, bool) {
+		if depth > 3 {
+			return 0, false
+		}
+		switch x := v.(type) {
+		case *ssa.Extract:
+			if call, ok := x.Tuple.(*ssa.Call); ok && isCallTo(call, "os", "OpenFile") && len(call.Call.Args) == 3 {
+				return constInt(call.Call.Args[1])
+			}
+		case *ssa.Call:
+			if sc := x.Call.StaticCallee(); sc != nil && c.isRepoFn(sc) {
+				var fl int64
+				found := false
+				instrsOf(sc, func(in ssa.Instruction) {
+					if ret, ok := in.(*ssa.Return); ok && len(ret.Results) > 0 {
+						if f, ok := openFlags(ret.Results[0], depth+1); ok {
+							fl, found = f, true
+						}
+					}
+				})
+				return fl, found
+			}
+		}
+		return 0, false
+	}
+	truncates := func(in ssa.Instruction, file ssa.Value) bool {
+		call, ok := in.(*ssa.Call)
+		if !ok {
+			return false
+		}
+		sc := call.Call.StaticCallee()
+		if sc == nil {
+			return false
+		}
+		if sc.Pkg != nil && sc.Pkg.Pkg.Path() == "os" && sc.Name() == "Truncate" && len(call.Call.Args) > 0 && call.Call.Args[0] == file {
+			return true
+		}
+		if c.isRepoFn(sc) {
+			for i, a := range call.Call.Args {
+				if a != file || i >= len(sc.Params) {
+					continue
+				}
+				param := sc.Params[i]
+				found := false
+				instrsOf(sc, func(y ssa.Instruction) {
+					if c2, ok := y.(*ssa.Call); ok {
+						if s2 := c2.Call.StaticCallee(); s2 != nil && s2.Pkg != nil && s2.Pkg.Pkg.Path() == "os" && s2.Name() == "Truncate" && len(c2.Call.Args) > 0 && c2.Call.Args[0] == ssa.Value(param) {
+							found = true
+						}
+					}
+				})
+				if found {
+					return true
+				}
+			}
+		}
+		return false
+	}
+	nw := 0
+	for _, fn := range c.SrcFuncs("main") {
+		k := 0
+		instrsOf(fn, func(in ssa.Instruction) {
+			call, ok := in.(*ssa.Call)
+			if !ok {
+				return
+			}
+			sc := call.Call.StaticCallee()
+			if sc == nil || sc.Pkg == nil || sc.Pkg.Pkg.Path() != "os" || sc.Signature.Recv() == nil || len(call.Call.Args) == 0 || !isFile(call.Call.Args[0]) {
+				return
+			}
+			if sc.Name() != "Write" && sc.Name() != "WriteString" {
+				return
+			}
+			file := call.Call.Args[0]
+			if u, ok := file.(*ssa.UnOp); ok {
+				if _, isGlobal := u.X.(*ssa.Global); isGlobal {
+					return // os.Stdout / os.Stderr
+				}
+			}
+			nw++
+			k++
+			ob := r.Ob(rule, fmt.Sprintf("%s: file write #%d replaces the file's old contents", fnName(fn), k), c.pos(call.Pos()))
+			if fl, ok := openFlags(file, 0); ok && fl&oTRUNC != 0 {
+				ob.OKnt("the file is opened with O_TRUNC")
+				return
+			}
+			done := false
+			instrsOf(fn, func(y ssa.Instruction) {
+				if truncates(y, file) && instrDominates(y, call) {
+					done = true
+				}
+			})
+			if done {
+				ob.OKnt("a Truncate of the same file dominates the write")
+			} else {
+				ob.Bad("the file is neither opened with O_TRUNC nor truncated before the write: when the new document is shorter than what the file held, the old tail stays and the file is not one valid JSON document")
+			}
+		})
+	}
+	r.Stats["main_output_file_writes"] = nw
 }
